@@ -24,7 +24,7 @@ pub const OTHERS: [&str; 28] = [
 const KINDS: usize = 12;
 const SWITCH: usize = 3;
 const FORMS: usize = 16;
-const USERS: usize = 4;
+const USERS: usize = 5;
 
 fn forms(n: &str) -> Vec<String> {
     vec![
@@ -94,7 +94,7 @@ impl Phase for Matrix {
             ["HashMapContext", "clone", "after clear_functions", "after clear", "clone, original modified afterwards", "RecordingContext", "fixed empty contexts", "functions defined while builtins were disabled, switch set afterwards", "after 256 x clear_functions", "after 65536 x clear_functions (256 for all but the first call form)", "clear_functions while a clone is alive", "every function defined twice (first as another function)"][kind],
             ["on", "off", "toggled twice (on)"][switch],
             name,
-            ["absent", "present", "present but failing", "present but failing with FunctionIdentifierNotFound of another function"][user_mode],
+            ["absent", "present", "present but failing", "present but failing with FunctionIdentifierNotFound of another function", "present and calling a function of its own name in a context of its own"][user_mode],
             name,
             if var { "present" } else { "absent" }
         );
@@ -108,7 +108,7 @@ impl Phase for Matrix {
         }
         if user {
             let inner = if name == "typeof" { "len" } else { "typeof" };
-            m.funs.insert(name.to_string(), match user_mode { 1 => FnModel::Marker, 2 => FnModel::Fail, _ => FnModel::FailNotFound(inner) });
+            m.funs.insert(name.to_string(), match user_mode { 1 => FnModel::Marker, 2 => FnModel::Fail, 3 => FnModel::FailNotFound(inner), _ => FnModel::SameNameInner });
         }
         m.funs.insert("m".into(), FnModel::Marker);
         m.builtins_off = off;
